@@ -2,19 +2,28 @@
 (* Reference meaning of rkcommon::prettyNumber / prettyDouble (property C18,  *)
 (* last sentence): the printed text is a mantissa between 1 and 1000 followed *)
 (* by the SI suffix that multiplies it back to the input within the printed   *)
-(* precision.                                                                 *)
+(* precision; the printed sign is the sign of the input.                      *)
 (*                                                                            *)
-(* Inputs are exact decimal numbers  m * 10^e  (m, e integers, m >= 1).  An   *)
-(* observation is what was printed, read back by the driver:                  *)
+(* An input is a record x = [neg, m, e, more]: the value is (-1)^neg * v with *)
+(*    v = m * 10^e exactly                       when ~more,                  *)
+(*    m * 10^e < v < (m + 1) * 10^e              when more                    *)
+(* (m, e integers, 0 <= m < 10^9).  `more` is how 64-bit counts that do not   *)
+(* fit TLC's 32-bit integers are handled: a count is given by three base-10^9 *)
+(* limbs and Lead() keeps its nine leading digits.                            *)
+(* An observation is what was printed, read back by the driver:               *)
 (*    digits : number of decimals printed        ("12.3k" -> 1, "150" -> 0)   *)
 (*    mant   : the printed mantissa in units of 10^-digits ("12.3k" -> 123)   *)
 (*    suf    : the text behind the number        ("k", "" when none)          *)
 (*    neg    : a minus sign was printed                                       *)
-(* The result is specified by a LAW (Admissible), not by a function: at a     *)
-(* suffix boundary 999.96e3 may print as 1000.0k or 1.0M, 1 as 1.0 or 1000.0m *)
-(* - both ends of [1, 1000] are admitted, and the mantissa may be off by one  *)
-(* unit of its last printed digit (rounding direction, float constants) plus  *)
-(* a relative 2^-18 (the six-decimal form prints a float).                    *)
+(* The result is specified by a LAW (Verdict / Admissible), not by a function:*)
+(* at a suffix boundary 999.96e3 may print as 1000.0k or 1.0M, 1 as 1.0 or    *)
+(* 1000.0m - both ends of [1, 1000] are admitted, and the mantissa may be off *)
+(* by one unit of its last printed digit (rounding direction, float           *)
+(* constants) plus a relative 2^-18 (the six-decimal form prints a float).    *)
+(* Mantissa range + multiplying back determine the suffix: it is the one      *)
+(* whose range contains |x| (or its neighbour exactly at a boundary).         *)
+(* Zero has no mantissa in [1, 1000]: it must print a zero mantissa (with any *)
+(* known suffix; the sign of a zero is not constrained).                      *)
 (* All arithmetic is exact integer arithmetic that saturates at Big so that   *)
 (* it stays inside TLC's 32-bit integers.                                     *)
 EXTENDS Integers, Sequences, FiniteSets
@@ -36,30 +45,54 @@ Decade(m, e) == e + NDigits(m) - 1                       \* floor(log10(m * 10^e
 FloorDiv3(x) == IF x >= 0 THEN x \div 3 ELSE -((-x + 2) \div 3)
 BandIdx(m, e) == FloorDiv3(Decade(m, e)) + 6             \* index into Sufs of the band the input lies in
 
-\* the quantifier of the property: 1e-15 <= m * 10^e <= 1e21
+\* the quantifier of the property: 1e-15 <= |x| <= 1e21 (or x = 0)
 InRange(m, e) == Decade(m, e) >= -15 /\ (Decade(m, e) <= 20 \/ (m = 1 /\ e = 21))
-\* an input prettyNumber can take: a non-negative integer that fits 64 bits (conservatively < 10^19)
-IsCount(m, e) == e >= 0 /\ Decade(m, e) <= 18
 
-Class(m, e) == "band=" \o (IF BandIdx(m, e) > 12 THEN "E-top" ELSE BandName(BandIdx(m, e)))
+Inp(neg, m, e) == [neg |-> neg, m |-> m, e |-> e, more |-> FALSE]
+
+\* 64-bit counts as limbs <<a, b, c>>: a * 10^18 + b * 10^9 + c
+Giga == 1000000000
+ValidCount(L) == /\ Len(L) = 3 /\ \A i \in 1..3 : L[i] >= 0 /\ L[i] < Giga
+                 /\ (L[1] < 18 \/ (L[1] = 18 /\ (L[2] < 446744073 \/ (L[2] = 446744073 /\ L[3] <= 709551615))))
+\* the nine leading digits of a count (exact when the count has at most nine digits)
+Lead(L) ==
+  LET a == L[1]  b == L[2]  c == L[3] IN
+  IF a > 0 THEN LET n == NDigits(a) IN
+       [neg |-> FALSE, m |-> a * P10(9 - n) + b \div P10(n), e |-> 9 + n, more |-> (b % P10(n) # 0 \/ c # 0)]
+  ELSE IF b > 0 THEN LET n == NDigits(b) IN
+       [neg |-> FALSE, m |-> b * P10(9 - n) + c \div P10(n), e |-> n, more |-> (c % P10(n) # 0)]
+  ELSE [neg |-> FALSE, m |-> c, e |-> 0, more |-> FALSE]
+\* m * 10^e as limbs (m < 10^6, 0 <= e <= 18, the product a valid count)
+ToLimbs(m, e) ==
+  LET q  == e \div 9
+      r  == e % 9
+      hi == m \div P10(9 - r)                 \* m * 10^r = hi * 10^9 + lo
+      lo == (m % P10(9 - r)) * P10(r)
+  IN IF q = 0 THEN <<0, hi, lo>> ELSE IF q = 1 THEN <<hi, lo, 0>> ELSE <<lo, 0, 0>>
+
+Class(x) == IF x.m = 0 THEN "zero"
+            ELSE "band=" \o (IF BandIdx(x.m, x.e) > 12 THEN "E-top" ELSE BandName(BandIdx(x.m, x.e)))
+                 \o (IF x.neg THEN ",neg" ELSE "")
 
 \* units of the last printed digit by which the mantissa may differ from the exact quotient
 Tol(o) == IF o.digits = 0 THEN 0 ELSE 1 + o.mant \div 262144
 
 \* which conjunct fails ("" = admissible)
-Verdict(m, e, o) ==
-  IF o.neg THEN "sign"
-  ELSE IF ~IsSuf(o.suf) THEN "suffix"
+Verdict(x, o) ==
+  LET mHi == IF x.more THEN x.m + 1 ELSE x.m IN         \* m * 10^e <= |x| <= mHi * 10^e
+  IF ~IsSuf(o.suf) THEN "suffix"
+  ELSE IF x.m = 0 THEN (IF o.mant = 0 THEN "" ELSE "multiplies-back")        \* zero prints a zero mantissa
+  ELSE IF o.neg # x.neg THEN "sign"                                           \* sign(printed) = sign(x)
   ELSE IF o.digits < 0 \/ o.digits > 6 THEN "mantissa-range"
-  ELSE IF o.mant < P10(o.digits) \/ o.mant > 1000 * P10(o.digits) THEN "mantissa-range"   \* 1 <= mantissa <= 1000
-  ELSE LET k  == SufExp(SufIdx(o.suf)) - o.digits - e      \* mant * 10^k  ~  m
+  ELSE IF o.mant < P10(o.digits) \/ o.mant > 1000 * P10(o.digits) THEN "mantissa-range"   \* 1 <= |mantissa| <= 1000
+  ELSE LET k  == SufExp(SufIdx(o.suf)) - o.digits - x.e      \* mant * 10^k  ~  m
            lo == o.mant - Tol(o)
            hi == o.mant + Tol(o)
        IN IF k >= 0
-          THEN IF Mul10(lo, k) <= m /\ m <= Mul10(hi, k) THEN "" ELSE "multiplies-back"
-          ELSE IF lo <= Mul10(m, -k) /\ Mul10(m, -k) <= hi /\ Mul10(m, -k) < Big THEN "" ELSE "multiplies-back"
+          THEN IF Mul10(lo, k) <= mHi /\ x.m <= Mul10(hi, k) THEN "" ELSE "multiplies-back"
+          ELSE IF lo <= Mul10(mHi, -k) /\ Mul10(x.m, -k) <= hi /\ Mul10(x.m, -k) < Big THEN "" ELSE "multiplies-back"
 
-Admissible(m, e, o) == Verdict(m, e, o) = ""
+Admissible(x, o) == Verdict(x, o) = ""
 
 -------------------------------------------------------------------------------
 \* A reference printer (one decimal, suffix of the input's band, round half up):
@@ -67,15 +100,20 @@ Admissible(m, e, o) == Verdict(m, e, o) = ""
 RoundDiv(x, d) == (2 * x + d) \div (2 * d)
 \* round(m * 10^e / 10^se * 10)
 Mant1(m, e, se) == LET x == e - se + 1 IN IF x >= 0 THEN Mul10(m, x) ELSE IF -x > 9 THEN 0 ELSE RoundDiv(m, P10(-x))
-RefObs(m, e, i) == [digits |-> 1, mant |-> Mant1(m, e, SufExp(i)), suf |-> Sufs[i], neg |-> FALSE]
-AdmSufs(m, e)   == {i \in DOMAIN Sufs : Admissible(m, e, RefObs(m, e, i))}
+RefObs(x, i) == [digits |-> 1, mant |-> Mant1(x.m, x.e, SufExp(i)), suf |-> Sufs[i], neg |-> x.neg]
+AdmSufs(x)   == {i \in DOMAIN Sufs : Admissible(x, RefObs(x, i))}
+OwnBand(x)   == IF BandIdx(x.m, x.e) > 12 THEN 12 ELSE BandIdx(x.m, x.e)
 
-SiLaws(m, e) ==
-  LET b == BandIdx(m, e) IN
-  /\ (b <= 12 => b \in AdmSufs(m, e))                         \* printing in the input's own band is admissible
-  /\ AdmSufs(m, e) \subseteq {b - 1, b, b + 1}                \* only a neighbouring suffix can be admissible as well ...
-  /\ Cardinality(AdmSufs(m, e)) \in {1, 2}                    \* ... and only one of them (at a boundary)
-  /\ (Cardinality(AdmSufs(m, e)) = 2 =>                       \* which happens only when the mantissa prints as 1.0 / 1000.0
-        \E i \in AdmSufs(m, e) : Mant1(m, e, SufExp(i)) \in {10, 10000})
-  /\ \A i \in DOMAIN Sufs : ~Admissible(m, e, [RefObs(m, e, i) EXCEPT !.mant = 0])
+\* x: an exact non-zero input
+SiLaws(x) ==
+  LET b == BandIdx(x.m, x.e) IN
+  /\ (b <= 12 => b \in AdmSufs(x))                            \* printing in the input's own band is admissible
+  /\ AdmSufs(x) \subseteq {b - 1, b, b + 1}                   \* only a neighbouring suffix can be admissible as well ...
+  /\ Cardinality(AdmSufs(x)) \in {1, 2}                       \* ... and only one of them (at a boundary)
+  /\ (Cardinality(AdmSufs(x)) = 2 =>                          \* which happens only when the mantissa prints as 1.0 / 1000.0
+        \E i \in AdmSufs(x) : Mant1(x.m, x.e, SufExp(i)) \in {10, 10000})
+  /\ \A i \in DOMAIN Sufs : ~Admissible(x, [RefObs(x, i) EXCEPT !.mant = 0])
+  /\ \A i \in AdmSufs(x) : Verdict(x, [RefObs(x, i) EXCEPT !.neg = ~x.neg]) = "sign"     \* a lost / spurious sign is rejected
+  /\ Admissible([x EXCEPT !.m = 0], [RefObs(x, 1) EXCEPT !.mant = 0])                    \* zero: "0.0f" and "-0.0f"
+  /\ ~Admissible([x EXCEPT !.m = 0], RefObs(x, OwnBand(x)))
 ===============================================================================
